@@ -108,8 +108,8 @@ func RunC02(run *core.Run, backend *SQLBackend, queries []Query, b Bounds) {
 		for _, c := range configs {
 			// single-lowering configurations are only meaningful on an AST the rewrite rules left alone: a rewritten
 			// pattern order may rely on a lowering (production never runs one without the other)
-			if origText0 != optText0 || !c.Applies(&plan) {
-				continue
+			if origText0 != optText0 || !c.Applies(&plan) || run.Tier != "thorough" {
+				continue // (diagnostic only, see below: left to the thorough tier)
 			}
 			var res translate.Result
 			var err error
